@@ -434,3 +434,23 @@ func VH_tableLookup(a []string) {
 	vAssert(vIff(got, vOr(sameGrp, vStrEq(pt.id[p], pt.id[q]))), "entry-at-own-position")
 	vAssert(vIff(gotPlus, vOr(vAnd(sameFam, pt.grp[q] >= pt.grp[p]), vStrEq(pt.id[p], pt.id[q]))), "entry-at-own-position")
 }
+
+// VH_jsonAgree [which id0 id1 ...]: the shipped list equals, entry by entry and in order, the
+// list the driver derived from the SPDX JSON file in the repository (by the statement's
+// partition rule, with the JSON keys of the SPDX data - not the generator's struct tags).
+func VH_jsonAgree(a []string) {
+	table := vList(a[0])
+	want := a[1:]
+	vNote("text", "len(table)="+vItoa(len(table))+" len(json)="+vItoa(len(want)))
+	vAssert(len(table) == len(want), "tables-equal-json")
+	n := len(table)
+	if len(want) < n {
+		n = len(want)
+	}
+	if n == 0 {
+		return
+	}
+	i := vPickInt(0, n-1, "i")
+	vNote("text", "entry "+vShow(table[i])+" vs json "+vShow(want[i]))
+	vAssert(vStrEq(table[i], want[i]), "tables-equal-json")
+}
